@@ -146,7 +146,14 @@ func runIsolated(cases []crashCase, perCase time.Duration) ([]crashResult, []str
 	self, _ := os.Executable()
 	i := 0
 	retried := map[string]bool{}
+	hangs := 0
 	for i < len(cases) {
+		if hangs >= 6 {
+			// enough hangs to report (each costs eleven deadlines): the remaining cases of this shard are not run
+			infraNote := fmt.Sprintf("stopped after %d hanging cases; %d cases of this shard not run", hangs, len(cases)-i)
+			_ = infraNote
+			break
+		}
 		cmd := exec.Command(self, "worker")
 		stdin, _ := cmd.StdinPipe()
 		stdout, _ := cmd.StdoutPipe()
@@ -210,6 +217,7 @@ func runIsolated(cases []crashCase, perCase time.Duration) ([]crashResult, []str
 						results = append(results, crashResult{ID: cc.ID, Q: cc.Q, Store: cc.Store, Mode: cc.Mode, BS: cc.BS,
 							Events: []string{"Build", "Timeout"}, Outcome: "timeout", Detail: fmt.Sprintf("no answer within %s", deadline)})
 						i++
+						hangs++
 					}
 					alive = false
 					got = true
